@@ -42,6 +42,27 @@ class Obj:
         return "Obj(%s,%s)" % (self.__typename__, self.__id__)
 
 
+class ExcObj(Exception):
+    """The same, for applications that hand *exception instances* around as
+    values ("errors as data": a NotFound object in a union).  Returning one is
+    not raising it."""
+
+    def __init__(self, typename, oid, fields):
+        Exception.__init__(self, "%s:%s" % (typename, oid))
+        self.__dict__["__typename__"] = typename
+        self.__dict__["__id__"] = oid
+        self.__dict__["_fields"] = fields
+
+    def __getattr__(self, name):
+        try:
+            return self.__dict__["_fields"][name]
+        except KeyError:
+            raise AttributeError(name)
+
+    def __repr__(self):
+        return "ExcObj(%s,%s)" % (self.__typename__, self.__id__)
+
+
 def obj_type(o):
     return o["__typename__"] if isinstance(o, dict) else o.__typename__
 
@@ -51,7 +72,7 @@ def obj_id(o):
         return "root"
     if isinstance(o, dict):
         return o["__id__"]
-    if isinstance(o, Obj):
+    if isinstance(o, (Obj, ExcObj)):
         return o.__id__
     # subscription events: plain python values act as their own id
     return repr(o)
@@ -113,6 +134,8 @@ class World:
             for f in spec.objects[tname]["fields"]:
                 if spec.behaviours.get((tname, f)) == "default":
                     fields[f] = self.make_default(tname, f, oid)
+        if zlib.crc32(oid.encode()) % 5 == 0:
+            return ExcObj(tname, oid, fields)
         return Obj(tname, oid, fields)
 
     def gen(self, t, idseed, path, nullable=True):
